@@ -361,6 +361,20 @@ func signature(rng *rand.Rand, idx int) (circuit.IO, circuit.IO, string) {
 		}
 		return io
 	}
+	switch idx % 16 {
+	case 13, 5: // so many arguments that the Bristol inputs / outputs line is longer than a reader's buffer
+		many := func(n int, pfx string) circuit.IO {
+			var io circuit.IO
+			for j := 0; j < n; j++ {
+				io = append(io, circuit.IOArg{Name: fmt.Sprintf("%s%d", pfx, j), Type: tinfo(types.TUint, 1+rng.Intn(2))})
+			}
+			return io
+		}
+		if idx%16 == 13 {
+			return many(2050+rng.Intn(700), "i"), mk(1), "many-inputs"
+		}
+		return many(2, "i"), many(2050+rng.Intn(700), "o"), "many-outputs"
+	}
 	switch idx % 8 {
 	case 6: // a header longer than the parser's 4096-byte buffer: a struct argument with many fields
 		var comp circuit.IO
@@ -385,7 +399,7 @@ func signature(rng *rand.Rand, idx int) (circuit.IO, circuit.IO, string) {
 }
 
 func validFile(rng *rand.Rand) ([]byte, string) {
-	in, out, _ := signature(rng, rng.Intn(6))
+	in, out, _ := signature(rng, rng.Intn(5))
 	c := circuitFor(in, out, rng, rng.Intn(12), rng.Intn(8) == 0)
 	format := "mpclc"
 	if rng.Intn(3) == 0 {
